@@ -153,3 +153,17 @@ def store_then_mutate_local(sub, extra):
     sub.glyphs = s
     sub.glyphs.add(extra)
     return s
+
+
+def store_twice(a, b, m):
+    # one dict stored into two objects (cmap4_0_3.cmap = mapping; cmap4_3_1.cmap = mapping)
+    a.glyphs = m
+    b.glyphs = m
+    return len([a, b])
+
+
+def store_twice_then_mutate(a, b, m, x):
+    a.glyphs = m
+    b.glyphs = m
+    b.glyphs.add(x)  # would change a.glyphs and m too: not modelled -> refused
+    return 0
